@@ -75,7 +75,7 @@ func VerifC15ResultCode() {
 // newline-terminated record, also when the pooled buffer held an older record, and
 // an over-long elapsed time saturates.
 //
-//verif:harness name=H15c-file-write tier=quick,thorough bounds="1..3 consecutive writes through one FileSystem with a recycled (dirty) buffer, each for another profile with or without a client address; elapsed time symbolic" reach=done
+//verif:harness name=H15c-file-write tier=quick,thorough bounds="1..3 consecutive writes through one FileSystem with a recycled (dirty) buffer, each for another profile with or without a client address and with question type 1, 257 and 65280; elapsed time symbolic" reach=done
 //verif:assume in the symbolic build os.OpenFile, File.Write/Close and json.Encoder.Encode are stubs (Encode appends one opaque newline-terminated record to the buffer); atomicity of concurrent O_APPEND writes is the kernel's
 func VerifC15FileWrite() {
 	verifPoolMode(1)
@@ -85,11 +85,13 @@ func VerifC15FileWrite() {
 	profiles := []string{"prof0001", "prof0002", "prof0003"}
 	ips := []string{"198.51.100.7", "203.0.113.9", "2001:db8::1"}
 	var withIP [3]bool
+	// question types below and above 255
+	qtypes := []uint16{1, 257, 65280}
 	for i := 0; i < n; i++ {
 		e := verifEntry()
 		// each entry is another profile's, with or without IP logging
 		e.ProfileID = agd.ProfileID(profiles[i])
-		e.RequestType = uint16(1 + i)
+		e.RequestType = qtypes[i]
 		withIP[i] = verifChoice(2) == 1
 		if withIP[i] {
 			e.RemoteIP = netip.MustParseAddr(ips[i])
@@ -109,7 +111,7 @@ func VerifC15FileWrite() {
 	recs := verifLoggedRecords(path)
 	verifAssert("one-record-per-entry", len(recs) == n)
 	for i := 0; i < n && i < len(recs); i++ {
-		verifAssert("record-describes-its-own-entry", recs[i].profile == profiles[i] && recs[i].qtype == uint16(1+i) && recs[i].fqdn == "example.org.")
+		verifAssert("record-describes-its-own-entry", recs[i].profile == profiles[i] && recs[i].qtype == qtypes[i] && recs[i].fqdn == "example.org.")
 		verifAssert("client-address-present-iff-the-entry-had-one", recs[i].hasIP == withIP[i])
 		if withIP[i] && recs[i].hasIP {
 			verifAssert("client-address-is-the-entry's-own", recs[i].ip == ips[i])
